@@ -141,6 +141,8 @@ def c03(cx):
             rel = cx.rel(ev["path"])
             if rel is None or not (inside(rel) or any(s[:len(rel)] == rel for s in cx.subtrees)):
                 return "mutating operation %s on %r outside the export subtrees" % (ev["op"], ev["path"])
+            if ev.get("op") == "other" and ev["ok"] and not inside(rel):
+                return "%s applied to %r, which is not inside an export subtree (an ancestor of the subtrees may be created, never removed or renamed)" % (ev.get("name"), ev["path"])
     return None
 
 
